@@ -87,7 +87,7 @@ func TestCheck(t *testing.T) {
 		child.Fold(run, fmt.Sprintf("child-%d", b), o, false)
 	})
 	run.Assume("after a Send failure the stream's status is what Recv returns (the gRPC contract); a clean end of stream (EOF / status OK) is exercised for hangs and leaks only - no error is demanded there")
-	run.Finish("fault enumeration over a scripted stub stream: the Send with index 1..6 fails, or the stream fails on the receive side after 0..5 responses, for each of 8 gRPC status codes (plus clean EOF after 0..3 responses; a Send failure whose status reaches the receive side 150 ms later; a receive-side failure when everything has been answered and the client had converged; a failure on a stream nothing was ever sent on), while the application queues a burst of 1/3/6/20 further requests; then Close, or Reset + Connect on a fresh stream + a further exchange that must converge. Oracles (each wait under a watchdog, a firing counts only with a proven permanent block): every Q returns, Done is signalled, AwaitConverged returns the recorded error (never nil, never the context's), Close/Reset return and the receiver is not inside Recv on the failed stream when they do, no goroutine with a frame of the client package survives, and after Reset the client has no stale pending operations, results or errors. Repeated per tier with different interleaving (thorough: 8 repetitions). Distinct = by fault case", 100, false)
+	run.Finish("fault enumeration over a scripted stub stream: the Send with index 1..6 fails, or the stream fails on the receive side after 0..5 responses, for each of 8 gRPC status codes (plus clean EOF after 0..3 responses; a Send failure whose status reaches the receive side 150 ms later; a receive-side failure when everything has been answered and the client had converged; a failure on a stream nothing was ever sent on), while the application queues a burst of 1/3/6/20 further requests; then Close, or Reset + Connect on a fresh stream + a further exchange that must converge. Oracles (each wait under a watchdog, a firing counts only with a proven permanent block): every Q returns, Done is signalled, AwaitConverged returns the recorded error (never nil, never the context's), Close/Reset return and the receiver is not inside Recv on the failed stream when they do, no goroutine with a frame of the client package survives, and after Reset the client has no stale pending operations, results or errors. Repeated per tier with different interleaving (quick: 4 repetitions, thorough: 40). Distinct = by fault case", 100, false)
 }
 
 func nhReq(id uint64) *spb.ModifyRequest {
@@ -395,7 +395,7 @@ func TestChild(t *testing.T) {
 	cat := catalogue()
 	reps := 4
 	if sp.Tier == "thorough" {
-		reps = 8
+		reps = 40
 	}
 	for i := b; i < len(cat); i += nChildren {
 		for rep := 0; rep < reps; rep++ {
